@@ -881,6 +881,11 @@ func (r *runningStep) executeSubWorkflows(input executeInput) ([]any, map[int]st
 			case sem <- struct{}{}:
 			case <-r.ctx.Done():
 				r.logger.Debugf("Aborting item %d execution.", i)
+				// The item has no result. Record that, otherwise it would count as a
+				// successful item without data.
+				r.lock.Lock()
+				itemErrors[i] = "item was not executed because the step was closed"
+				r.lock.Unlock()
 				return
 			}
 
